@@ -136,26 +136,28 @@ func (e *Exec) argCV(v Value) *CV {
 
 func (e *Exec) zeroReal() *Term { return e.tb.Real(new(big.Rat)) }
 
-// rank: Int=1 Float=2 Complex=3, others 0
+// rank follows go/constant.ord: unknown 0, bool/string 1, Int 2, Float 3, Complex 4
 func cvRank(c *CV) int {
 	switch c.K {
-	case constant.Int:
+	case constant.Bool, constant.String:
 		return 1
-	case constant.Float:
+	case constant.Int:
 		return 2
-	case constant.Complex:
+	case constant.Float:
 		return 3
+	case constant.Complex:
+		return 4
 	}
 	return 0
 }
 
 func (e *Exec) cvTo(c *CV, rank int) *CV {
 	switch rank {
-	case 2:
+	case 3:
 		if c.K == constant.Int {
 			return e.cvFloat(e.tb.ToReal(c.I))
 		}
-	case 3:
+	case 4:
 		switch c.K {
 		case constant.Int:
 			return e.cvComplex(e.tb.ToReal(c.I), e.zeroReal())
@@ -166,16 +168,23 @@ func (e *Exec) cvTo(c *CV, rank int) *CV {
 	return c
 }
 
-// match promotes numeric operands to the larger kind (go/constant.match).
+// cvMatch mirrors go/constant.match/match0: the lower-ranked numeric operand is
+// promoted; a non-numeric lower-ranked operand is returned twice ("x, x").
 func (e *Exec) cvMatch(x, y *CV) (*CV, *CV) {
 	rx, ry := cvRank(x), cvRank(y)
-	if rx == 0 || ry == 0 {
-		return x, y
+	switch {
+	case rx < ry:
+		if rx >= 2 {
+			return e.cvTo(x, ry), y
+		}
+		return x, x
+	case rx > ry:
+		if ry >= 2 {
+			return x, e.cvTo(y, rx)
+		}
+		return y, y
 	}
-	if rx < ry {
-		return e.cvTo(x, ry), y
-	}
-	return x, e.cvTo(y, rx)
+	return x, y
 }
 
 func (e *Exec) cvPanic(msg string) {
@@ -203,28 +212,75 @@ func (e *Exec) intBitop(op token.Token, a, b *Term) *Term {
 		}
 		return tb.Int(z)
 	}
-	const W = 96
-	lim := tb.Int(pow2(W - 2))
-	nlim := tb.Int(new(big.Int).Neg(pow2(W - 2)))
-	inr := func(x *Term) *Term { return tb.And(tb.Le(nlim, x), tb.Lt(x, lim)) }
-	if !e.decide(tb.And(inr(a), inr(b))) {
-		e.outside("bit operation on symbolic integers beyond 2^%d", W-2)
+	// machine-integer shaped operands: exact bit-vector semantics at 66 bits
+	if x, ok := e.asBV66(a); ok {
+		if y, ok := e.asBV66(b); ok {
+			var r *Term
+			switch op {
+			case token.AND:
+				r = tb.bvBin("bvand", x, y)
+			case token.OR:
+				r = tb.bvBin("bvor", x, y)
+			case token.XOR:
+				r = tb.bvBin("bvxor", x, y)
+			case token.AND_NOT:
+				r = tb.bvBin("bvand", x, tb.BvNot(y))
+			}
+			return tb.Bv2Int(r, true)
+		}
 	}
-	x, y := tb.Int2Bv(a, W), tb.Int2Bv(b, W)
-	var r *Term
+	// unbounded symbolic integers: uninterpreted function with sign/magnitude axioms.
+	// Models may be spurious (reported as such after native replay), verdicts on
+	// syntactically equal folds are unaffected.
+	e.approx = true
+	names := map[token.Token]string{token.AND: "bitand", token.OR: "bitor", token.XOR: "bitxor", token.AND_NOT: "bitandnot"}
+	r := tb.UF(names[op], sortInt, a, b)
+	zero := tb.Int64(0)
+	an, bn := tb.Lt(a, zero), tb.Lt(b, zero)
+	ap, bp := tb.Not(an), tb.Not(bn)
+	imp := func(p, q *Term) *Term { return tb.Or(tb.Not(p), q) }
+	between := func(lo, x, hi *Term) *Term { return tb.And(tb.Le(lo, x), tb.Le(x, hi)) }
 	switch op {
 	case token.AND:
-		r = tb.mk("bvand", sortBV(W), x, y)
+		e.assume(imp(ap, between(zero, r, a)))
+		e.assume(imp(bp, between(zero, r, b)))
+		e.assume(imp(tb.And(an, bn), tb.And(tb.And(tb.Le(r, a), tb.Le(r, b)), tb.Le(tb.Add(a, b), r))))
 	case token.OR:
-		r = tb.mk("bvor", sortBV(W), x, y)
+		e.assume(imp(tb.Or(an, bn), tb.Lt(r, zero)))
+		e.assume(imp(tb.And(ap, bp), tb.And(tb.And(tb.Le(a, r), tb.Le(b, r)), tb.Le(r, tb.Add(a, b)))))
+		e.assume(imp(an, tb.Le(a, r)))
+		e.assume(imp(bn, tb.Le(b, r)))
 	case token.XOR:
-		r = tb.mk("bvxor", sortBV(W), x, y)
+		e.assume(tb.Eq(tb.Lt(r, zero), tb.Not(tb.Eq(an, bn))))
+		absA := tb.Ite(an, tb.Neg(a), a)
+		absB := tb.Ite(bn, tb.Neg(b), b)
+		sum := tb.Add(absA, absB)
+		e.assume(between(tb.Sub(tb.Neg(sum), tb.Int64(1)), r, sum))
 	case token.AND_NOT:
-		r = tb.mk("bvand", sortBV(W), x, tb.mk("bvnot", sortBV(W), y))
+		e.assume(imp(ap, between(zero, r, a)))
+		e.assume(imp(tb.And(an, bn), between(zero, r, tb.Sub(tb.Neg(b), tb.Int64(1)))))
+		e.assume(imp(tb.And(an, bp), tb.And(tb.Le(r, a), tb.Le(tb.Sub(a, b), r))))
 	}
-	u := tb.mk("bv2nat", sortInt, r)
-	neg := tb.mk("bvslt", sortBool, r, tb.intern(&Term{op: "const", sort: sortBV(W), u: 0}))
-	return tb.Ite(neg, tb.Sub(u, tb.Int(pow2(W))), u)
+	return r
+}
+
+// asBV66 recognises integer terms that are conversions of machine integers.
+func (e *Exec) asBV66(t *Term) (*Term, bool) {
+	tb := e.tb
+	switch t.op {
+	case "const":
+		if t.i.IsInt64() {
+			return tb.SExt(2, tb.BV(64, uint64(t.i.Int64()))), true
+		}
+		if t.i.IsUint64() {
+			return tb.ZExt(2, tb.BV(64, t.i.Uint64())), true
+		}
+	case "sbv2int":
+		return tb.SExt(66-t.args[0].sort.W, t.args[0]), true
+	case "bv2nat":
+		return tb.ZExt(66-t.args[0].sort.W, t.args[0]), true
+	}
+	return nil, false
 }
 
 // truncating quotient and remainder (Go semantics) from SMT euclidean div/mod
@@ -284,7 +340,12 @@ func (e *Exec) cvBinaryOp(x *CV, op token.Token, y *CV) *CV {
 			return e.cvFloat(tb.RDiv(tb.ToReal(a), tb.ToReal(b)))
 		case token.QUO_ASSIGN, token.REM:
 			if !e.decide(tb.Not(tb.Eq(b, tb.Int64(0)))) {
-				e.fault("integer divide by zero (go/constant.BinaryOp)")
+				// int64 representation: Go run-time divide error; big representation: math/big panics
+				small := tb.And(tb.Le(tb.Int(int64Lo), a), tb.Lt(a, tb.Int(int64Hi)))
+				if e.decide(small) {
+					e.fault("integer divide by zero (go/constant.BinaryOp)")
+				}
+				e.cvPanic("division by zero")
 			}
 			q, r := e.truncDivRem(a, b)
 			if op == token.REM {
@@ -515,25 +576,50 @@ func (e *Exec) cvShift(x *CV, op token.Token, s *Term) *CV {
 	if x.K != constant.Int {
 		e.cvPanic(fmt.Sprintf("invalid shift %v %s", x.K, op))
 	}
-	// resource precondition (C17): constant.Shift allocates |x|*2^s bits
-	const shiftBound = 4096
-	if !e.decide(tb.bvCmp("bvule", s, tb.BV(64, shiftBound))) {
-		e.resourceFault("go/constant.Shift", fmt.Sprintf("shift count above %d reaches math/big (memory proportional to the count)", shiftBound))
+	// resource precondition (C17): constant.Shift(x, SHL, s) allocates about s bits for x != 0
+	const shiftBound = 1 << 33
+	if op == token.SHL {
+		big := tb.And(tb.Not(tb.Eq(x.I, tb.Int64(0))), tb.Not(tb.bvCmp("bvule", s, tb.BV(64, shiftBound))))
+		if e.decide(big) {
+			e.resourceFault("go/constant.Shift", fmt.Sprintf("left shift of a non-zero constant by more than 2^33 bits allocates more than a gigabyte in math/big"))
+		}
 	}
-	var p *Term
+	if s.IsConst() && s.u > 1<<20 {
+		e.outside("constant shift by a concrete count above 2^20")
+	}
 	if s.IsConst() {
-		p = tb.Int(pow2(uint(s.u)))
-	} else {
-		// bounded but symbolic: small ranges are enumerated, otherwise pow2 stays uninterpreted
-		p = tb.UF("pow2", sortInt, tb.Bv2Int(s, false))
-		e.assume(tb.Lt(tb.Int64(0), p))
-		e.assume(tb.Eq(tb.Eq(s, tb.BV(64, 0)), tb.Eq(p, tb.Int64(1))))
+		p := tb.Int(pow2(uint(s.u)))
+		switch op {
+		case token.SHL:
+			return e.cvInt(tb.Mul(x.I, p))
+		case token.SHR:
+			return e.cvInt(tb.IDiv(x.I, p)) // floor, as big.Int.Rsh (arithmetic shift)
+		}
+		e.cvPanic(fmt.Sprintf("invalid shift %v %s", x.K, op))
 	}
+	// symbolic count: the result is an uninterpreted function of (x, s) with sign and
+	// magnitude axioms.  Accept/reject logic stays exact; values are approximate, so models
+	// touching them may be spurious (native replay decides).
+	e.approx = true
+	si := tb.Bv2Int(s, false)
+	zero := tb.Int64(0)
+	imp := func(p, q *Term) *Term { return tb.Or(tb.Not(p), q) }
+	xpos, xneg, xz := tb.Lt(zero, x.I), tb.Lt(x.I, zero), tb.Eq(x.I, zero)
+	s0 := tb.Eq(si, zero)
 	switch op {
 	case token.SHL:
-		return e.cvInt(tb.Mul(x.I, p))
+		r := tb.UF("shl", sortInt, x.I, si)
+		e.assume(imp(xz, tb.Eq(r, zero)))
+		e.assume(imp(s0, tb.Eq(r, x.I)))
+		e.assume(imp(tb.And(xpos, tb.Not(s0)), tb.Le(tb.Add(x.I, x.I), r)))
+		e.assume(imp(tb.And(xneg, tb.Not(s0)), tb.Le(r, tb.Add(x.I, x.I))))
+		return e.cvInt(r)
 	case token.SHR:
-		return e.cvInt(tb.IDiv(x.I, p)) // floor, as big.Int.Rsh (arithmetic shift)
+		r := tb.UF("shr", sortInt, x.I, si)
+		e.assume(imp(s0, tb.Eq(r, x.I)))
+		e.assume(imp(tb.Not(xneg), tb.And(tb.Le(zero, r), tb.Le(r, x.I))))
+		e.assume(imp(xneg, tb.And(tb.Le(x.I, r), tb.Lt(r, zero))))
+		return e.cvInt(r)
 	}
 	e.cvPanic(fmt.Sprintf("invalid shift %v %s", x.K, op))
 	return nil
@@ -646,13 +732,31 @@ func init() {
 		e.cvPanic(fmt.Sprintf("%v not a String", x.K))
 		return nil
 	})
+	// Int64Val/Uint64Val: when the value fits, the machine integer is a fresh bit-vector
+	// tied to the Int by (s)bv2int; int2bv (slow in z3) is only used for concrete values.
+	// When it does not fit, Go returns the low 64 bits: modelled as unconstrained.
+	i2bv := func(e *Exec, x *Term, exact *Term, signed bool) *Term {
+		tb := e.tb
+		if x.IsConst() {
+			return tb.Int2Bv(x, 64)
+		}
+		if x.op == "sbv2int" && x.args[0].sort.W == 64 && signed {
+			return x.args[0]
+		}
+		if x.op == "bv2nat" && x.args[0].sort.W == 64 && !signed {
+			return x.args[0]
+		}
+		v := tb.Var(e.freshName("i64"), sortBV(64))
+		e.assume(tb.Or(tb.Not(exact), tb.Eq(tb.Bv2Int(v, signed), x)))
+		return v
+	}
 	reg("Int64Val", func(e *Exec, a []Value) Value {
 		x := e.argCV(a[0])
 		tb := e.tb
 		switch x.K {
 		case constant.Int:
 			exact := tb.And(tb.Le(tb.Int(int64Lo), x.I), tb.Lt(x.I, tb.Int(int64Hi)))
-			return Tuple{tb.Int2Bv(x.I, 64), exact}
+			return Tuple{i2bv(e, x.I, exact, true), exact}
 		case constant.Unknown:
 			return Tuple{tb.BV(64, 0), tb.Bool(false)}
 		}
@@ -665,7 +769,7 @@ func init() {
 		switch x.K {
 		case constant.Int:
 			exact := tb.And(tb.Le(tb.Int64(0), x.I), tb.Lt(x.I, tb.Int(u64Hi)))
-			return Tuple{tb.Int2Bv(x.I, 64), exact}
+			return Tuple{i2bv(e, x.I, exact, false), exact}
 		case constant.Unknown:
 			return Tuple{tb.BV(64, 0), tb.Bool(false)}
 		}
@@ -699,7 +803,7 @@ func init() {
 		case constant.Int:
 			fits := tb.And(tb.Le(tb.Int(int64Lo), x.I), tb.Lt(x.I, tb.Int(int64Hi)))
 			if e.decide(fits) {
-				return Iface{T: types.Typ[types.Int64], V: tb.Int2Bv(x.I, 64)}
+				return Iface{T: types.Typ[types.Int64], V: i2bv(e, x.I, tb.Bool(true), true)}
 			}
 			bt := e.w.ssaTypeOf(rtBigInt)
 			if x.I.IsConst() {
@@ -722,7 +826,7 @@ func init() {
 		x := e.argCV(a[0])
 		switch x.K {
 		case constant.Int, constant.Float:
-			return e.cvIface(e.cvTo(x, 3))
+			return e.cvIface(e.cvTo(x, 4))
 		case constant.Complex:
 			return e.cvIface(x)
 		}
